@@ -35,6 +35,10 @@ pub struct Sc {
     /// (constructor levels, not counting through vectors) by this number
     #[serde(default)]
     pub nesting_bound: Option<usize>,
+    /// the bound counts nesting through vectors as well (planted family `VT`, whose recursion runs
+    /// through `vec <named type>`)
+    #[serde(default)]
+    pub through_vec: bool,
 }
 
 pub fn runs_for(_prop: &str, tier: Tier) -> u64 {
@@ -47,7 +51,19 @@ pub fn runs_for(_prop: &str, tier: Tier) -> u64 {
 fn gen_config(rng: &mut Rng, env: &SEnv, tys: &[SType]) -> String {
     let mut s = String::from("[random]\n");
     if rng.chance(2, 3) {
-        s.push_str(&format!("depth = {}\n", rng.pick(&[-1i64, 0, 1, 2, 3, 5, 10, 30])));
+        // A depth of 30 is only a feasible workload where the recursion cannot branch: a definition that
+        // mentions names twice, or sits under a vector, may legitimately produce ~2^depth nodes (the size
+        // budget is per path), which is a long run and not a non-terminating one.
+        let mut d = *rng.pick(&[-1i64, 0, 1, 2, 3, 5, 10, 30]);
+        let branching = env.0.values().chain(tys.iter()).any(|t| {
+            let mut st = Vec::new();
+            subterms(t, &mut st);
+            st.iter().filter(|x| matches!(x, SType::Name(_))).count() >= 2 || st.iter().any(|x| matches!(x, SType::Vec(_)))
+        });
+        if d == 30 && branching {
+            d = 12;
+        }
+        s.push_str(&format!("depth = {d}\n"));
     }
     if rng.chance(2, 3) {
         s.push_str(&format!("size = {}\n", rng.pick(&[-5i64, 0, 1, 5, 20, 100, 1000])));
@@ -119,7 +135,10 @@ pub fn generate(_prop: &str, _tier: Tier, seed: u64, run: u64) -> Sc {
         // W: the non-recursive alternative mentions one named type twice
         env.0.insert("P".into(), SType::record(vec![(SLabel::Named("x".into()), SType::Prim(Prim::Nat8))]));
         env.0.insert("W".into(), SType::variant(vec![(SLabel::Named("stop".into()), SType::record(vec![(SLabel::Id(0), SType::name("P")), (SLabel::Id(1), SType::name("P"))])), (SLabel::Named("go".into()), SType::name("W"))]));
-        let which = *knobs.pick(&["T", "L", "W"]);
+        // VT: the recursion runs through a vector of a *named* type (leaving a name must not hand back
+        // depth that entering it never took: the surplus would add up from element to element)
+        env.0.insert("VT".into(), SType::variant(vec![(SLabel::Named("leaf".into()), SType::Prim(Prim::Null)), (SLabel::Named("node".into()), SType::vec(SType::name("VT")))]));
+        let which = *knobs.pick(&["T", "L", "W", "VT"]);
         let d = knobs.range(0, 12) as usize;
         let config = match knobs.below(3) {
             0 => format!("[random]\ndepth = {d}\n"),
@@ -133,7 +152,7 @@ pub fn generate(_prop: &str, _tier: Tier, seed: u64, run: u64) -> Sc {
             1 => vec![0xff; n],
             _ => fl.bytes(n),
         };
-        return Sc { stack_kib: 8192, env, tys: vec![SType::name(which)], config, entropy: crate::engines::stream::hex(&entropy), cuts: Cuts::EveryPrefix, nesting_bound: Some(d + 6) };
+        return Sc { stack_kib: 8192, env, tys: vec![SType::name(which)], config, entropy: crate::engines::stream::hex(&entropy), cuts: Cuts::EveryPrefix, nesting_bound: Some(d + 6), through_vec: which == "VT" };
     }
     let mut k = TyKnobs::draw(&mut knobs);
     k.defs = knobs.range(0, 5) as usize;
@@ -166,7 +185,7 @@ pub fn generate(_prop: &str, _tier: Tier, seed: u64, run: u64) -> Sc {
         }
         _ => fl.bytes(n),
     };
-    Sc { stack_kib, env, tys, config, entropy: crate::engines::stream::hex(&entropy), cuts: Cuts::EveryPrefix, nesting_bound: None }
+    Sc { stack_kib, env, tys, config, entropy: crate::engines::stream::hex(&entropy), cuts: Cuts::EveryPrefix, nesting_bound: None, through_vec: false }
 }
 
 #[derive(Default)]
@@ -226,7 +245,7 @@ fn run(sc: &Sc, log: bool) -> Local {
                     let av = from_idl(v);
                     l.states.push(fnv1a(format!("{}|{}", show_type(t), av.nodes()).as_bytes()));
                     if let Some(b) = sc.nesting_bound {
-                        let n = nesting(&av);
+                        let n = nesting(&av, sc.through_vec);
                         if n > b {
                             l.v("recursion-within-configured-depth", show_type(t), format!("argument {i}: the generated value nests {n} constructor levels although the configured depth allows at most {b}; entropy prefix {k}/{}; types {tdesc}", entropy.len()));
                             return l;
@@ -273,16 +292,17 @@ fn run(sc: &Sc, log: bool) -> Local {
     }
     l
 }
-/// constructor nesting of a value, restarting below vectors
-fn nesting(v: &AV) -> usize {
-    fn go(v: &AV, best: &mut usize) -> usize {
+/// constructor nesting of a value, restarting below vectors unless `through_vec`
+fn nesting(v: &AV, through_vec: bool) -> usize {
+    fn go(v: &AV, best: &mut usize, tv: bool) -> usize {
         let d = match v {
-            AV::Opt(Some(x)) => 1 + go(x, best),
-            AV::Variant(_, x) => 1 + go(x, best),
-            AV::Record(fs) => 1 + fs.iter().map(|(_, x)| go(x, best)).max().unwrap_or(0),
+            AV::Vec(xs) if tv => 1 + xs.iter().map(|x| go(x, best, tv)).max().unwrap_or(0),
+            AV::Opt(Some(x)) => 1 + go(x, best, tv),
+            AV::Variant(_, x) => 1 + go(x, best, tv),
+            AV::Record(fs) => 1 + fs.iter().map(|(_, x)| go(x, best, tv)).max().unwrap_or(0),
             AV::Vec(xs) => {
                 for x in xs {
-                    go(x, best);
+                    go(x, best, tv);
                 }
                 1
             }
@@ -294,7 +314,7 @@ fn nesting(v: &AV) -> usize {
         d
     }
     let mut best = 0;
-    go(v, &mut best);
+    go(v, &mut best, through_vec);
     best
 }
 
